@@ -49,8 +49,9 @@ GapToks(s, g) ==
     [] g = "LSR" -> << <<"EL", 0>>, <<"S">>, <<"ER", 0>>, <<"S">> >>        \* one side's events are seen and synced before the other's
     [] g = "RSL" -> << <<"ER", 0>>, <<"S">>, <<"EL", 0>>, <<"S">> >>
     \* tail-only: one side's events are synced for several steps (punts and retries included) before the other side's arrive
-    [] g = "LS4R" -> << <<"EL", 0>>, <<"S">>, <<"S">>, <<"S">>, <<"S">>, <<"ER", 0>>, <<"S">> >>
-    [] g = "RS4L" -> << <<"ER", 0>>, <<"S">>, <<"S">>, <<"S">>, <<"S">>, <<"EL", 0>>, <<"S">> >>
+    \* (16 steps: a punted entry is only retried after the others had their turn; idle steps leave no trace line)
+    [] g = "LSxR" -> << <<"EL", 0>> >> \o [i \in 1..16 |-> <<"S">>] \o << <<"ER", 0>>, <<"S">> >>
+    [] g = "RSxL" -> << <<"ER", 0>> >> \o [i \in 1..16 |-> <<"S">>] \o << <<"EL", 0>>, <<"S">> >>
     [] g = "IT1S" -> << <<"EL", 0>>, <<"ER", 0>>, <<"T", 1>>, <<"S">> >>       \* one half-ageing unit later: too early
     [] g = "IT2S" -> << <<"EL", 0>>, <<"ER", 0>>, <<"T", 2>>, <<"S">> >>       \* exactly aged
     [] g = "IT3S" -> << <<"EL", 0>>, <<"ER", 0>>, <<"T", 3>>, <<"S">>, <<"S">> >>
@@ -76,12 +77,12 @@ GenUser(s, op, g) ==
      IN /\ UserEffect(s, op, t2)
         /\ IF last
              THEN /\ g \in (IF down THEN {"R", "Rrm", "Rrej"} \cap Gaps
-                              ELSE {"N"} \cup (Gaps \cap {"I1", "IS", "SI", "LSR", "RSL", "LS4R", "RS4L"}))   \* what happens before the final run to quiet
+                              ELSE {"N"} \cup (Gaps \cap {"I1", "IS", "SI", "LSR", "RSL", "LSxR", "RSxL"}))   \* what happens before the final run to quiet
                   /\ tr' = [tr EXCEPT ![s] = t2]
                   /\ down' = FALSE
                   /\ h' = h \o <<OpTok(s, op)>> \o GapToks(s, g) \o << <<"Q">>, <<"AQ">> >>
              ELSE /\ h' = h \o <<OpTok(s, op)>> \o GapToks(s, g)
-                  /\ g \notin {"LS4R", "RS4L"}
+                  /\ g \notin {"LSxR", "RSxL"}
                   /\ IF down THEN g \in {"N", "R", "Rrm", "Rrej"} ELSE g \notin {"R", "Rrm", "Rrej"}
                   /\ down' = IF g \in {"X", "ISX", "IX"} THEN TRUE ELSE IF g \in {"R", "Rrm", "Rrej"} THEN FALSE ELSE down
                   /\ IF g = "Q"
